@@ -64,9 +64,29 @@ def job_rpy(ctx, lo, hi):
     ctx.sample({'rpy': [RY[lo], PITCH[2], RY[5]]})
 
 
+THOROUGH = False
+
+
+def _axes():
+    ax = list(A.AXES())
+    if THOROUGH:      # + the 31 rotation axes of the icosahedral group and of two oblique conjugates (no alignment with x, y, z)
+        for G in (A.G120(), A.Gc(A.G120(), 0), A.Gc(A.G120(), 5)):
+            seen = []
+            for q in G:
+                v = q[1:]
+                n = math.sqrt(float(v @ v))
+                if n < 1e-9:
+                    continue
+                v = v / n
+                if not any(abs(abs(float(v @ w)) - 1) < 1e-9 for w in seen):
+                    seen.append(v)
+            ax += seen
+    return ax
+
+
 def _axang_cases():
     out = []
-    for ia, ax in enumerate(A.AXES()):
+    for ia, ax in enumerate(_axes()):
         for ang in A.ANG():
             if 0.0 < ang < PI:
                 out.append((ia, ax / math.sqrt(float(ax @ ax)), ang))
@@ -74,6 +94,7 @@ def _axang_cases():
 
 
 def job_axang(ctx, lo, hi):
+    _set_tier(ctx)
     from ahrs import Quaternion, DCM
     from ahrs.common import orientation as O
     for ia, n, ang in _axang_cases()[lo:hi]:
@@ -161,6 +182,7 @@ def job_explog_nonunit(ctx):
 
 
 def job_pow(ctx, lo, hi):
+    _set_tier(ctx)
     from ahrs import Quaternion
     one = np.array([1.0, 0, 0, 0])
     for ia, n, ang in _axang_cases()[lo:hi]:
@@ -253,11 +275,17 @@ def job_seq(ctx, lo, hi):
     ctx.sample({'sequence': _sequences()[lo], 'angles': SEQ_ANG[:len(_sequences()[lo])]})
 
 
+def _set_tier(ctx):
+    global THOROUGH
+    THOROUGH = ctx.thorough
+
+
 def run(ctx):
+    _set_tier(ctx)
     jobs = [('job_rpy', (lo, hi)) for lo, hi in core.chunks(len(RY), 16)]
     n = len(_axang_cases())
-    jobs += [('job_axang', (lo, hi)) for lo, hi in core.chunks(n, 8)]
-    jobs += [('job_pow', (lo, hi)) for lo, hi in core.chunks(n, 16)]
+    jobs += [('job_axang', (lo, hi)) for lo, hi in core.chunks(n, 8 if not ctx.thorough else 32)]
+    jobs += [('job_pow', (lo, hi)) for lo, hi in core.chunks(n, 16 if not ctx.thorough else 48)]
     jobs += [('job_seq', (lo, hi)) for lo, hi in core.chunks(len(_sequences()), 13)]
     jobs.append(('job_explog_nonunit', ()))
     core.run_jobs(ctx, __name__, jobs)
